@@ -19,7 +19,7 @@ import (
 func Spec() *run.Spec {
 	return &run.Spec{
 		ID: "C12", Level: "exploration",
-		Rule: "phase histories: case = one edit history of 5-80 operations through the graph.Instance methods the HTTP handlers call (CreateNode over every registered node type incl. harness-registered order-sensitive array / formatting nodes, ConnectNodes incl. bursts that take array inputs to 0-15 entries, DeleteNodeInputConnection, UpdateParameter for every parameter type, SetName/SetDescription, SetNodeAsProducer, SetMetadata/DeleteMetadata, DeleteNode of nodes nothing depends on, generating an artifact mid-history), with intermediate saves like the editor's autosave (App.Schema() after every edit / after a random fifth of the edits / never; every tenth intermediate file is itself loaded into a fresh application and compared with the graph at that moment), starting from an empty application or from a hand-built App.Files graph; " +
+		Rule: "phase histories: case = one edit history of 5-80 operations through the graph.Instance methods the HTTP handlers call (CreateNode over every registered node type incl. harness-registered order-sensitive array / formatting nodes, ConnectNodes incl. bursts that take array inputs to 0-15 entries, DeleteNodeInputConnection, UpdateParameter for every parameter type (image uploads: PNGs of every colour model from Go's default encoder, and foreign encodings: JPEG, PNGs written with no / fastest / best compression, PNGs with tEXt / pHYs / tIME chunks; the same bytes also as File values), SetName/SetDescription, SetNodeAsProducer, SetMetadata/DeleteMetadata, DeleteNode of nodes nothing depends on (every other time after a nodes.<id>.position metadata entry was posted for it, which stays behind; a fifth of the posted positions are for ids that no node ever had), generating an artifact mid-history), with intermediate saves like the editor's autosave (App.Schema() after every edit / after a random fifth of the edits / never; every tenth intermediate file is itself loaded into a fresh application and compared with the graph at that moment), starting from an empty application or from a hand-built App.Files graph; " +
 			"then S1 = App.Schema(), a fresh generator.App applies S1, and the two applications are compared through public observers (node ids and types, per node the map input name -> dependency id:port with array inputs by position, parameter ToMessage()/name/Schema(), producers, metadata tree, application fields), every producer's artifact is generated on both sides and compared, and S2 = fresh.Schema() must equal S1 byte for byte. " +
 			"Non-trivial: the saved graph has an array input with >= 10 connections or >= 3 parameter types. Distinctness: start state / node-count bucket / longest array bucket / parameter-type count / producer count / deletions / metadata. " +
 			"phase large-arrays: one array input of an order-sensitive harness node receives 352, 1000-1200, 256, 600, 257, 400, 100, 255 (then also random 100-1200) connections from 3-12 sources (parameters and harness nodes of the element type, random picks), with 2-4 disconnects in the middle, a few intermediate saves (one of them reloaded and compared, mostly past position 256), a text producer over the array where the node is string-valued; then the same save / reload / compare / re-save / artifact checks. " +
@@ -37,18 +37,22 @@ func Spec() *run.Spec {
 			"thorough": {"large_arrays_ge256": 50, "large_arrays_ge352": 35, "large_arrays_ge1000": 8, "large_array_connections": 30000},
 		},
 		MinObserved: map[string]int64{
-			"saved_graphs_array_ge10":    20,
-			"artifacts_compared":         100,
-			"parameter_value_classes":    20,
-			"node_types_created":         60,
-			"op_delete_node":             20,
-			"op_disconnect_array":        10,
-			"op_set_metadata":            50,
-			"reloads":                    100,
-			"ufo_producers_compared":     1,
-			"ufo_file_reproduced":        1,
-			"parameters_compared":        200,
-			"array_connections_compared": 300,
+			"saved_graphs_array_ge10": 20,
+			"artifacts_compared":      100,
+			"parameter_value_classes": 20,
+			"node_types_created":      60,
+			"op_delete_node":          20,
+			"op_disconnect_array":     10,
+			"op_set_metadata":         50,
+			"reloads":                 100,
+			"ufo_producers_compared":  1,
+			"ufo_file_reproduced":     1,
+			"parameters_compared":     200,
+			"saved_graphs_with_an_image_uploaded_in_a_foreign_encoding": 30,
+			"image_upload_classes_in_a_foreign_encoding":                4,
+			"saved_graphs_with_metadata_of_a_deleted_node":              50,
+			"saved_graphs_with_metadata_of_an_id_that_never_existed":    15,
+			"array_connections_compared":                                300,
 		},
 		Phases: []run.Phase{
 			{Name: "histories", Cases: func(t string) int {
@@ -111,6 +115,7 @@ func historyCase(c *run.Ctx) run.Result {
 	if h == nil || h.dead || res.Inconclusive != "" {
 		return res
 	}
+	h.leftovers()
 	checkReload(c, &res, h, true)
 	return res
 }
